@@ -77,3 +77,88 @@ def prove_c18(tier, seed):
         res.append(Res(f"{TI}:{name}", "post", "TSPLIB95-formula", P18, "proved" if good else "refuted", witness=wit,
                        reason="operation sequence of the real function vs published definition (int = truncation)"))
     return res
+
+
+# ====================================================================== explicit edge-weight formats: index walkers (block of real code per format)
+from pyvc.spec import A1, A2, CONST, OBJ, PYINT, Loop, contract, lemma, spec, tag  # noqa: E402
+
+# Off(a): number of entries of the strict upper triangle in rows < a  (TSPLIB95 UPPER_ROW layout, row-wise)
+spec("uoff(a, n)", "0 if a <= 0 else uoff(a - 1, n) + n - a", ptypes=["int", "int"], qdef=True)
+lemma("uoff_closed", {"a": "int", "n": "int"}, ["a >= 0"], "2 * uoff(a, n) == a * (2 * n - a - 1)", induct="a", base="0")
+
+_read_n_ints = contract("<opaque>:__read_n_ints", params={"k": PYINT, "stream": OBJ}, returns=A1(),
+                        ensures=["len(result) == k", "forall(q, 0, k, -10**12 <= result[q] and result[q] <= 10**12)"],
+                        assumptions=["__read_n_ints(k, stream) returns exactly k integers (it raises otherwise): bounded harness"])
+_cir = contract("<opaque>:check_int_range_t", params={"v": PYINT, "name": OBJ, "lo": PYINT, "hi": PYINT}, returns=PYINT,
+                ensures=["result == v and lo <= v and v <= hi"])
+
+contract(
+    TI + ":_matrix_from_edge_weights#UPPER_ROW",
+    props="C18",
+    params={"n_cities": PYINT, "edge_weight_type": CONST("EXPLICIT"), "edge_weight_format": CONST("UPPER_ROW"), "stream": OBJ},
+    i64=False,
+    requires=["n_cities >= 2"],
+    opaque={"__read_n_ints": _read_n_ints, "check_int_range": _cir},
+    lemmas_at={"entry": ["uoff_closed(n_cities - 1, n_cities)"]},
+    loops={"0": Loop(index="k", inv=[
+        tag("C18", "cursor", "0 <= j and j + 1 <= i and i <= n_cities and implies(i == n_cities, j == n_cities - 1)"
+            " and k == uoff(j, n_cities) + i - j - 1 and shape(res, 0) == n_cities and shape(res, 1) == n_cities"),
+        tag("C18", "filled", "forall(a, 0, n_cities, forall(b, a + 1, n_cities, implies(a < j or (a == j and b < i),"
+            " res[a, b] == ints[uoff(a, n_cities) + b - a - 1] and res[b, a] == ints[uoff(a, n_cities) + b - a - 1])))"),
+        tag("C18", "diagonal", "forall(a, 0, n_cities, res[a, a] == 0)"),
+    ], lemmas=["uoff_closed(j, n_cities)"])},
+    ensures=[
+        tag("C18", "upper-row-layout", "forall(a, 0, n_cities, forall(b, a + 1, n_cities,"
+            " result[a, b] == ints[uoff(a, n_cities) + b - a - 1] and result[b, a] == result[a, b]))"),
+        tag("C18", "zero-diagonal", "forall(a, 0, n_cities, result[a, a] == 0)"),
+    ],
+)
+
+spec("loff(a)", "0 if a <= 0 else loff(a - 1) + a", ptypes=["int"], qdef=True)                       # entries in rows < a of the lower triangle with diagonal
+lemma("loff_closed", {"a": "int"}, ["a >= 0"], "2 * loff(a) == a * (a + 1)", induct="a", base="0")
+spec("udoff(a, n)", "0 if a <= 0 else udoff(a - 1, n) + n - a + 1", ptypes=["int", "int"], qdef=True)  # rows < a of the upper triangle with diagonal
+lemma("udoff_closed", {"a": "int", "n": "int"}, ["a >= 0"], "2 * udoff(a, n) == a * (2 * n - a + 1)", induct="a", base="0")
+
+contract(
+    TI + ":_matrix_from_edge_weights#LOWER_DIAG_ROW",
+    props="C18",
+    params={"n_cities": PYINT, "edge_weight_type": CONST("EXPLICIT"), "edge_weight_format": CONST("LOWER_DIAG_ROW"), "stream": OBJ},
+    i64=False,
+    requires=["n_cities >= 2"],
+    opaque={"__read_n_ints": _read_n_ints, "check_int_range": _cir},
+    lemmas_at={"entry": ["loff_closed(n_cities)", "mul_even(n_cities)"]},
+    loops={"1": Loop(index="k", inv=[
+        tag("C18", "cursor", "0 <= i and i <= j and j <= n_cities and implies(j == n_cities, i == 0)"
+            " and k == loff(j) + i and shape(res, 0) == n_cities and shape(res, 1) == n_cities"),
+        tag("C18", "filled", "forall(a, 0, n_cities, forall(b, 0, a, implies(a < j or (a == j and b < i),"
+            " res[a, b] == ints[loff(a) + b] and res[b, a] == ints[loff(a) + b])))"),
+        tag("C18", "diagonal", "forall(a, 0, n_cities, res[a, a] == 0)"),
+    ], lemmas=["loff_closed(j)"])},
+    ensures=[
+        tag("C18", "lower-diag-row-layout", "forall(a, 0, n_cities, forall(b, 0, a, result[a, b] == ints[loff(a) + b] and result[b, a] == result[a, b]))"),
+        tag("C18", "zero-diagonal", "forall(a, 0, n_cities, result[a, a] == 0)"),
+    ],
+)
+
+contract(
+    TI + ":_matrix_from_edge_weights#UPPER_DIAG_ROW",
+    props="C18",
+    params={"n_cities": PYINT, "edge_weight_type": CONST("EXPLICIT"), "edge_weight_format": CONST("UPPER_DIAG_ROW"), "stream": OBJ},
+    i64=False,
+    requires=["n_cities >= 2"],
+    opaque={"__read_n_ints": _read_n_ints, "check_int_range": _cir},
+    lemmas_at={"entry": ["udoff_closed(n_cities, n_cities)", "mul_even(n_cities)"]},
+    loops={"2": Loop(index="k", inv=[
+        tag("C18", "cursor", "0 <= j and j <= i and i <= n_cities and implies(i == n_cities, j == n_cities)"
+            " and k == udoff(j, n_cities) + i - j and shape(res, 0) == n_cities and shape(res, 1) == n_cities"),
+        tag("C18", "filled", "forall(a, 0, n_cities, forall(b, a + 1, n_cities, implies(a < j or (a == j and b < i),"
+            " res[a, b] == ints[udoff(a, n_cities) + b - a] and res[b, a] == ints[udoff(a, n_cities) + b - a])))"),
+        tag("C18", "diagonal", "forall(a, 0, n_cities, res[a, a] == 0)"),
+    ], lemmas=["udoff_closed(j, n_cities)"])},
+    ensures=[
+        tag("C18", "upper-diag-row-layout", "forall(a, 0, n_cities, forall(b, a + 1, n_cities,"
+            " result[a, b] == ints[udoff(a, n_cities) + b - a] and result[b, a] == result[a, b]))"),
+        tag("C18", "zero-diagonal", "forall(a, 0, n_cities, result[a, a] == 0)"),
+    ],
+)
+lemma("mul_even", {"n": "int"}, ["n >= 0"], "(n * (n - 1)) % 2 == 0", induct="n", base="0")
